@@ -30,6 +30,7 @@ type Case struct {
 	Ranges   []Range
 	WS1, WS2 uint64 // whitespace seeds of the two spellings of the header (0 = none)
 	Default  string // restful.DefaultResponseContentType
+	Compact  bool   // the handler switches pretty printing off for its response (the writers' other code path; the choice of representation must not depend on it, so the model is not told)
 }
 
 // whitespace next to "," (i.e. around the media type) is mostly blanks: the ROUTER's Accept test
